@@ -32,6 +32,8 @@ def gen_history(seed, i):
     pending = list(comps)
     subs = sub_schemas(defs)
     n_steps = r.randrange(2, 30 if i % 4 else 12)
+    root_titles = ["RootAlpha", "RootBeta", "RootGamma", "root-delta"]
+    r.shuffle(root_titles)
     name_pool = ["Hint", "Other", "Thing", "Item"] + [workloads.sanitize_guess(n) for n in defs]
     repeats = 0
     while len(steps) < n_steps:
@@ -42,6 +44,13 @@ def gen_history(seed, i):
             r.shuffle(order)
             steps.append({"op": "refs", "defs": [[n, defs[n]] for n in order]})
             added += c
+        elif k < 0.43 and root_titles and i % 3 == 0:
+            # a titled root document of its own (add_root_schema may be called repeatedly on one space)
+            t = root_titles.pop()
+            rd = {"title": t, "type": "object",
+                  "properties": {"n": {"type": "integer"}, "next": {"$ref": "#"} if r.random() < 0.5 else {"type": "string"}},
+                  "definitions": {t + "Part": {"type": "object", "properties": {"p": {"type": "boolean"}}}}}
+            steps.append({"op": "root", "schema": rd, "expect_name": workloads.sanitize_guess(t)})
         elif k < 0.55 and added:
             n = r.choice(added)
             steps.append({"op": "type", "schema": {"$ref": "#/definitions/" + n}})
@@ -203,6 +212,14 @@ def run(tier, seed, replay=None):
             # id map sanity: the id the API returned names the same thing as iter_types()[id-1]
             ret = (steps[si].get("ret") or {})
             rid = ret.get("id")
+            if step.get("op") == "root" and step.get("expect_name") and rid is not None and 1 <= rid <= len(types):
+                if norm(types[rid - 1]["name"]) != step["expect_name"]:
+                    rep.violation("root_id_resolves_to_other_type", "-",
+                                  {"step": si, "title": step["schema"].get("title"), "resolved": types[rid - 1]["name"]},
+                                  case=case)
+                    bad = True
+                    break
+                rep.count("root_id_checked")
             if rid is not None:
                 if not (1 <= rid <= len(types)):
                     rep.count("id_map_inconsistent")
